@@ -28,7 +28,7 @@ def kinds():
     K = []
 
     def add(name, owner, req, res):
-        base = {"contact-sync-part": "contact-sync", "contact-sync-delta": "contact-sync", "picture-get-full": "picture-get"}.get(name, name)
+        base = {"contact-sync-part": "contact-sync", "contact-sync-delta": "contact-sync", "picture-get-full": "picture-get", "privacy-get-future": "privacy-get"}.get(name, name)
         K.append({"name": name, "base": base, "owner": owner, "req": req, "res": res})
     add("ping", "YowIqProtocolLayer", lambda: PingIqProtocolEntity(to="s.whatsapp.net"), generic)
     add("lastseen", "YowPresenceProtocolLayer", lambda: LastseenIqProtocolEntity(JID),
@@ -43,6 +43,9 @@ def kinds():
     add("picture-set", "YowProfilesProtocolLayer", lambda: PR.SetPictureIqProtocolEntity(JID, b"pp", b"dd"), picture)
     add("privacy-get", "YowProfilesProtocolLayer", lambda: PR.GetPrivacyIqProtocolEntity(),
         lambda i: PR.ResultPrivacyIqProtocolEntity({"last": "all", "status": "contacts", "profile": "none"}).toProtocolTreeNode())
+    # the server's vocabulary grows: categories and values the library's documentation does not list yet
+    add("privacy-get-future", "YowProfilesProtocolLayer", lambda: PR.GetPrivacyIqProtocolEntity(),
+        lambda i: PR.ResultPrivacyIqProtocolEntity({"last": "contacts", "readreceipts": "all", "groupadd": "contact_blacklist", "online": "match_last_seen"}).toProtocolTreeNode())
     add("status-set", "YowProfilesProtocolLayer", lambda: PR.SetStatusIqProtocolEntity("hello"), generic)
     add("group-create", "YowGroupsProtocolLayer", lambda: G.CreateGroupsIqProtocolEntity("subject", participants=[JID]),
         lambda i: G.SuccessCreateGroupsIqProtocolEntity(i, "4912345-1400000001").toProtocolTreeNode())
